@@ -277,6 +277,20 @@ def gen_strings(r, nvalid, nmut, nmal):
     return ops
 
 
+def gen_exhaustive(maxlen):
+    """every string over a four-letter alphabet up to maxlen: the parser's group/colon bookkeeping
+    is exercised on all shapes, not only on neighbours of valid strings"""
+    import itertools
+    ops = []
+    for n in range(0, maxlen + 1):
+        for t in itertools.product(":1.f", repeat=n):
+            s = "".join(t)
+            ops.append(("p " + xhex(s), ("p", s, "exhaustive")))
+            if ":" not in s or n <= 4:
+                ops.append(("p6 " + xhex(s), ("p6", s, "exhaustive")))
+    return ops
+
+
 def gen_cmp(r, n):
     ops = []
     for _ in range(n):
@@ -432,7 +446,7 @@ def run(pid, tier):
         return rep.finish()
 
     r = vlib.rng(pid)
-    k = {"quick": 1, "thorough": 20}[tier]
+    k = {"quick": 5, "thorough": 100}[tier]
     groups = []
     corpus = load_corpus()
     for f, ops in corpus:
@@ -441,6 +455,7 @@ def run(pid, tier):
     groups.append(("fmt4", gen_fmt4(r, 2000 * k)))
     groups.append(("buffers", gen_buffers(r, 6 * k)))
     groups.append(("strings", gen_strings(r, 3000 * k, 12000 * k, 3000 * k)))
+    groups.append(("exhaustive", gen_exhaustive(7 if tier == "quick" else 9)))
     groups.append(("cmp", gen_cmp(r, 300 * k)))
 
     stats = {"ops": 0, "groups": {}, "forms6": {}, "parse": {"lib_accept": 0, "lib_reject": 0, "pton_accept": 0, "pton_reject": 0,
@@ -544,7 +559,7 @@ def run(pid, tier):
         "distribution": stats,
         "forms_missing": missing,
     })
-    for gname, ops in groups[len(corpus):len(corpus) + 4]:
+    for gname, ops in groups[len(corpus):len(corpus) + 5]:
         rep.sample({"group": gname, "ops": [o for o, _ in ops[:4]]})
     rep.assumptions = [
         "glibc sscanf(%3hhu), snprintf(%hhu), sprintf(%x/%d) are modelled (scanU3, dec8, hex16), validated by this differential run",
